@@ -5,6 +5,7 @@ mod app;
 mod common;
 mod etrade;
 mod fmv;
+mod errvis;
 mod fuzz;
 mod ledger;
 mod pages;
@@ -106,6 +107,15 @@ fn main() {
                 let mut cr = r.fork();
                 let mut s = String::new();
                 splitneutral::run_case(&format!("N{}-{}", seed, i), &mut cr, &mut s);
+                w.write_all(s.as_bytes()).unwrap();
+            }
+        }
+        "errvis" => {
+            let mut r = rng::Rng::new(seed ^ 0xE44);
+            for i in 0..count {
+                let mut cr = r.fork();
+                let mut s = String::new();
+                errvis::run_case(&format!("V{}-{}", seed, i), &mut cr, &mut s);
                 w.write_all(s.as_bytes()).unwrap();
             }
         }
